@@ -257,7 +257,13 @@ func scriptedHook(cfg scfg) func(name string, req map[string]interface{}) vs.Hoo
 		switch mode {
 		case "null-status":
 		case "own-condition":
-			resp["status"] = vs.M{"replicas": int64(observed), "conditions": []interface{}{vs.M{"type": "Updated", "status": "Unknown"}}}
+			// the hook reports a condition of the type metacontroller maintains itself; its status depends on the image, so that
+			// it sometimes coincides with what metacontroller is about to write (False while rolling, True when done)
+			st := map[string]string{"v1": "False", "v2": "True"}[objStr(parent, "spec", "image")]
+			if st == "" {
+				st = "Unknown"
+			}
+			resp["status"] = vs.M{"replicas": int64(observed), "conditions": []interface{}{vs.M{"type": "Updated", "status": st, "reason": "HookSays", "message": "from the hook"}}}
 		default:
 			resp["status"] = vs.M{"replicas": int64(observed), "ready": int64(ready)}
 		}
